@@ -548,6 +548,28 @@ pub fn exec(p: &[&str], scratch: &str) -> String {
             let (chunks, parts) = k2.verif_chunks_parts();
             format!("{},{}|{}", parts, chunks, listing)
         }
+        "obig" => {
+            // obig k kind len : one record of `len` clean bases (a = poly-A, ac = AC repeat, lcg = pseudo-random) through the
+            // file API in counts mode; the entries must sum to the number of windows (and poly-A has a single column)
+            let d = fresh(scratch);
+            let k: usize = p[1].parse().unwrap(); let len: usize = p[3].parse().unwrap();
+            let mut x: u64 = 88172645463325252;
+            let seq: Vec<u8> = (0..len).map(|i| match p[2] { "a" => b'A', "ac" => b"AC"[i % 2], _ => { x ^= x << 13; x ^= x >> 7; x ^= x << 17; b"ACGT"[(x >> 33) as usize % 4] } }).collect();
+            let inp = serialise(&[b"ACGTTGCA".to_vec(), seq, b"TTGACA".to_vec()], "fa", 0, &d, "in");
+            let out = format!("{}/out.vec", d);
+            let mut c = composition::oligo::OligoComputer::new(inp, out.clone(), k);
+            c.set_norm(false); c.set_delim(",".to_string()); c.set_threads(2);
+            if let Err(e) = c.vectorise() { return format!("ERR {}", e); }
+            let text = String::from_utf8_lossy(&std::fs::read(&out).unwrap()).to_string();
+            let rows: Vec<&str> = text.lines().collect();
+            if rows.len() != 3 { return format!("ROWS {}", rows.len()); }
+            let vals: Vec<f64> = rows[1].split(',').map(|v| v.parse::<f64>().unwrap_or(f64::NAN)).collect();
+            let sum: f64 = vals.iter().sum();
+            let windows = (len + 1).saturating_sub(k) as f64;
+            if sum != windows { return format!("SUM-MISMATCH entries sum to {} for {} windows", sum, windows); }
+            if p[2] == "a" && vals[0] != windows { return format!("COLUMN-MISMATCH poly-A column holds {} of {} windows", vals[0], windows); }
+            "OK".into()
+        }
         "readc" => {
             // readc <container> <recs> : the records as the reader and the statistics pass deliver them from a container
             let d = fresh(scratch);
